@@ -1,6 +1,8 @@
 import ChythonModel.Py.Wire
 import ChythonModel.Py.Hash
 import ChythonModel.Model.Morgan
+import ChythonModel.Model.ChiralMorgan
+import ChythonModel.Gen.PeriodicTable
 /-!
 Line-protocol driver for C01. Requests are `<op> <int> …`.
 
@@ -13,6 +15,12 @@ Line-protocol driver for C01. Requests are `<op> <int> …`.
 Responses: `ok …` (dicts as `k v k v …` in dict order), `err KeyError`, `err NoneInHash`, `bad` for a malformed line.
 -/
 open ChythonModel.Py ChythonModel.Model ChythonModel.Model.Morgan
+
+/-- `is_forming_single_bonds` of the element with atomic number `z` (regenerated periodic table) -/
+def singleOf (z : Nat) : Bool :=
+  match ChythonModel.Gen.periodicTable.find? (·.z == z) with
+  | some r => r.single
+  | none => false
 
 def parseNb : Nat → List Int → Option (List (Nat × Int) × List Int)
   | 0, rest => some ([], rest)
@@ -51,7 +59,7 @@ def parseNbS : Nat → List Int → Option (List (Nat × Bond) × List Int)
   | _, _ => none
 
 /-- rows: (id, atom, labelled?, neighbours) -/
-def parseViewAtomsS : Nat → List Int → Option (List (Nat × HAtom × Bool × List (Nat × Bond)) × List Int)
+def parseViewAtomsS : Nat → List Int → Option (List (Nat × HAtom × Option Bool × List (Nat × Bond)) × List Int)
   | 0, rest => some ([], rest)
   | k + 1, id :: z :: iso :: ch :: rad :: h :: ring :: st :: deg :: rest => do
     if deg < 0 then none
@@ -59,7 +67,7 @@ def parseViewAtomsS : Nat → List Int → Option (List (Nat × HAtom × Bool ×
     let (tl, r2) ← parseViewAtomsS k r1
     let a : HAtom := { z := z.toNat, isotope := if iso ≤ 0 then none else some iso.toNat, charge := ch,
                        radical := rad != 0, implH := optNat h, inRing := ring != 0 }
-    some ((id.toNat, a, decide (st ≥ 0), nb) :: tl, r2)
+    some ((id.toNat, a, tri st, nb) :: tl, r2)
   | _, _ => none
 
 def parseWeights : Nat → List Int → Option (Weights × List Int)
@@ -95,11 +103,12 @@ def handleInts (op : String) (xs : List Int) : Option String :=
       match parseViewAtomsS n.toNat rest with
       | some (rows, []) =>
         let m : MolView := ⟨rows.map (fun r => (r.1, r.2.1)), rows.map (fun r => (r.1, r.2.2.2))⟩
-        let labelled := (rows.filter (fun r => r.2.2.1)).map (·.1)
-        match chiralMorgan pyHashTuple m labelled with
+        let labels := rows.filterMap (fun r => r.2.2.1.map fun s => (r.1, s))
+        match ChiralMorgan.chiralMorgan pyHashTuple singleOf m labels with
         | .ranks r => some (showRanks r)
-        | .keyError => some "err KeyError"
+        | .err e => some ("err " ++ e.name)
         | .notModelled => some "notmodelled"
+        | .fuelOut => some "fuelout"
       | _ => none
     | [] => none
   | "morgan" =>
